@@ -325,3 +325,120 @@ Theorem C01_env_name_refuted : exists env cmd,
   end.
 Proof. exists [(STR "1A", STR "x")], [STR "cc"; STR "-c"]. vm_compute. repeat split. Qed.
 Print Assumptions C01_env_name_refuted.
+
+(* ====================================================================== flag variables and the goal (target-specific /
+   pattern-specific variables with inheritance).  R model Make/MakeTVars.v: GNU Make's lookup of a variable in the recipe
+   of a target built on behalf of a chain of dependents - own target-specific, then own pattern-specific, then the
+   effective value of the direct dependent (recursively), then global; := definitions expanded while the Makefile is
+   read (validated against /usr/bin/make, harness/c01tv.py stage R:make tvars).  W model Graph/FlagsVars.v: the lines
+   flags_vars and make_compile / make_link write for one kind X:  GLOBAL_X := g ;  %: X := $(GLOBAL_X)  (always) ;
+   tgt: X := $(GLOBAL_X) own  for the steps with own values (tie: stage W:flags_vars lines). *)
+From BFG Require Import Make.MakeTVars Graph.BackendAgree Graph.FlagsVars Graph.FlagsVarsProofs.
+
+(* For every flag kind X, every global word list g (the empty one included), every set of targets with own word lists
+   (an empty list = a step without own values: it gets no line), and every Makefile [defs] whose definitions of GLOBAL_X
+   and X are exactly the written ones (definitions of other variables may stand anywhere in between): the words sh gets
+   from $(X) in the recipe of ANY target t are g ++ own t, whatever the chain of dependents [chain] on whose behalf Make
+   builds t - the value does not depend on the goal.
+   Guards: X is made of ASCII word characters; the targets with own values are distinct (Makefile.rule rejects a second
+   rule for a target); no written target-specific line has a ; in its text ([tline_plain]: GNU Make reads such a line as a
+   rule line first and the first unquoted ; changes the meaning of # and of backslashes behind / in front of it - the
+   complement is C01_flags_target_semicolon_refuted, open finding C01-target-flag-semicolon; global words are unrestricted).
+   [read_defs ... = Some st]: the other definitions are inside the fragment MakeRead interprets. *)
+Theorem C01_flags_goal_independent : forall uw us fname g own written defs gl st,
+  name_ok fname = true ->
+  NoDup (map fst own) ->
+  flag_defs uw us true fname (words_items g) (own_items own) = Some written ->
+  forallb tline_plain written = true ->
+  filter (about (global_name fname) fname) defs = written ->
+  read_defs (mkVS gl [] []) defs = Some st ->
+  forall t chain, sh_words uw (lookup st fname t chain) = Some (g ++ own_words own t).
+Proof. exact flags_goal_independent. Qed.
+Print Assumptions C01_flags_goal_independent.
+
+(* the special case of a Makefile with the written lines only *)
+Theorem C01_flags_goal_independent_plain : forall uw us fname g own written gl st,
+  name_ok fname = true ->
+  NoDup (map fst own) ->
+  flag_defs uw us true fname (words_items g) (own_items own) = Some written ->
+  forallb tline_plain written = true ->
+  read_defs (mkVS gl [] []) written = Some st ->
+  forall t chain, sh_words uw (lookup st fname t chain) = Some (g ++ own_words own t).
+Proof. exact flags_goal_independent_plain. Qed.
+Print Assumptions C01_flags_goal_independent_plain.
+
+(* The same Makefile WITHOUT the pattern-specific line (flag_defs false), no global words: a prerequisite without own
+   values (libinner.so) built as its own goal sees no words, built on behalf of prog it sees the words of prog. *)
+Theorem C01_flags_without_pattern_line_refuted : exists fname own written st t p,
+  name_ok fname = true /\ NoDup (map fst own) /\
+  flag_defs c01_nu c01_nu false fname (words_items []) (own_items own) = Some written /\
+  read_defs (mkVS [] [] []) written = Some st /\
+  own_words own t = [] /\ own_words own p <> [] /\
+  sh_words c01_nu (lookup st fname t []) = Some [] /\
+  sh_words c01_nu (lookup st fname t [p]) = Some (own_words own p).
+Proof.
+  exists (STR "LDLIBS"), [(STR "prog", [STR "./libinner.so"]); (STR "libinner.so", [])].
+  eexists. eexists. exists (STR "libinner.so"), (STR "prog").
+  split; [reflexivity|]. split; [repeat constructor; cbn; intuition discriminate|].
+  split; [vm_compute; reflexivity|]. split; [vm_compute; reflexivity|].
+  split; [reflexivity|]. split; [discriminate|]. split; vm_compute; reflexivity.
+Qed.
+Print Assumptions C01_flags_without_pattern_line_refuted.
+
+(* The guard [tline_plain] is needed: own words -DA=x;y -DB=h#i of one step.  The line
+     main.o: CFLAGS := $(GLOBAL_CFLAGS) '-DA=x;y' '-DB=h\#i'
+   is cut by GNU Make at the ; and the rest put back verbatim, so the tool gets -DB=h\#i (validated against /usr/bin/make;
+   the same words as GLOBAL words arrive unchanged: C01_var_assign).  Likewise a backslash directly in front of a ; is lost. *)
+Theorem C01_flags_target_semicolon_refuted : exists fname g own written st t,
+  name_ok fname = true /\ NoDup (map fst own) /\
+  flag_defs c01_nu c01_nu true fname (words_items g) (own_items own) = Some written /\
+  read_defs (mkVS [] [] []) written = Some st /\
+  g ++ own_words own t = [STR "-DA=x;y"; STR "-DB=h#i"; STR "a\;b"] /\
+  sh_words c01_nu (lookup st fname t []) = Some [STR "-DA=x;y"; STR "-DB=h\#i"; STR "a\;b"] /\
+  (exists st2 written2,
+     flag_defs c01_nu c01_nu true fname (words_items g) (own_items [(t, [STR "a\;b"; STR "c"])]) = Some written2 /\
+     read_defs (mkVS [] [] []) written2 = Some st2 /\
+     sh_words c01_nu (lookup st2 fname t []) = Some [STR "a;b"; STR "c"]).
+Proof.
+  exists (STR "CFLAGS"), [], [(STR "main.o", [STR "-DA=x;y"; STR "-DB=h#i"; STR "a\;b"])].
+  eexists. eexists. exists (STR "main.o").
+  split; [reflexivity|]. split; [repeat constructor; cbn; intuition discriminate|].
+  split; [vm_compute; reflexivity|]. split; [vm_compute; reflexivity|].
+  split; [reflexivity|]. split; [vm_compute; reflexivity|].
+  eexists. eexists. split; [vm_compute; reflexivity|]. split; vm_compute; reflexivity.
+Qed.
+Print Assumptions C01_flags_target_semicolon_refuted.
+
+(* non-vacuity: two kinds interleaved the way the backend writes them (all GLOBAL_ lines, all pattern lines, then the
+   lines of the rules), words with blanks, quotes, # and $; the hypotheses hold and the library, built on behalf of prog
+   on behalf of all, gets the global words only, prog gets global ++ own. *)
+Definition c01_tv_own : list (str * list str) :=
+  [(STR "prog", [STR "./libinner.so"; STR "-DX=a#b $c"]); (STR "libinner.so", []); (STR "o t/x'y.stamp", [STR "-l:z"])].
+Definition c01_tv_g : list str := [STR "-lm"; STR "-L/a b"; STR "x;y#z"].
+Definition c01_tv_defs : list vdef :=
+  [mkDef ScGlobal (STR "GLOBAL_LDFLAGS") (STR "-Wl,-O1");
+   mkDef ScGlobal (STR "GLOBAL_LDLIBS") (STR "-lm '-L/a b' 'x;y\#z'");
+   mkDef ScPattern (STR "LDFLAGS") (STR "$(GLOBAL_LDFLAGS)");
+   mkDef ScPattern (STR "LDLIBS") (STR "$(GLOBAL_LDLIBS)");
+   mkDef (ScTarget (STR "prog")) (STR "LDFLAGS") (STR "$(GLOBAL_LDFLAGS) -s");
+   mkDef (ScTarget (STR "prog")) (STR "LDLIBS") (STR "$(GLOBAL_LDLIBS) ./libinner.so '-DX=a\#b $$c'");
+   mkDef (ScTarget (STR "o t/x'y.stamp")) (STR "LDLIBS") (STR "$(GLOBAL_LDLIBS) -l:z")].
+Example C01_flags_goal_independent_nonvacuous :
+  name_ok (STR "LDLIBS") = true /\ NoDup (map fst c01_tv_own) /\
+  (exists written st,
+    flag_defs c01_nu c01_nu true (STR "LDLIBS") (words_items c01_tv_g) (own_items c01_tv_own) = Some written /\
+    forallb tline_plain written = true /\
+    filter (about (global_name (STR "LDLIBS")) (STR "LDLIBS")) c01_tv_defs = written /\
+    read_defs (mkVS [] [] []) c01_tv_defs = Some st /\
+    sh_words c01_nu (lookup st (STR "LDLIBS") (STR "libinner.so") [STR "prog"; STR "all"]) = Some c01_tv_g /\
+    sh_words c01_nu (lookup st (STR "LDLIBS") (STR "prog") [STR "all"]) =
+      Some [STR "-lm"; STR "-L/a b"; STR "x;y#z"; STR "./libinner.so"; STR "-DX=a#b $c"] /\
+    lookup st (STR "LDFLAGS") (STR "libinner.so") [STR "prog"] = STR "-Wl,-O1" /\
+    def_lines c01_nu written = Some [STR "GLOBAL_LDLIBS := -lm '-L/a b' 'x;y\#z'"; STR "%: LDLIBS := $(GLOBAL_LDLIBS)";
+      STR "prog: LDLIBS := $(GLOBAL_LDLIBS) ./libinner.so '-DX=a\#b $$c'";
+      STR "o\ t/x'y.stamp: LDLIBS := $(GLOBAL_LDLIBS) -l:z"]).
+Proof.
+  split; [reflexivity|]. split; [repeat constructor; cbn; intuition discriminate|].
+  eexists. eexists. split; [vm_compute; reflexivity|]. split; [vm_compute; reflexivity|]. split; [vm_compute; reflexivity|].
+  split; [vm_compute; reflexivity|]. repeat split; vm_compute; reflexivity.
+Qed.
